@@ -171,6 +171,13 @@ def rules(fx, rep):
             if r_ == helper:
                 fr.storev(t['dest'], exp.Agg([at(n) for n in HELP_NAMES]))
                 return True
+            if c.get('trait') == 'ff::Field' and c.get('name') == 'is_zero' and len(t['args']) == 1:
+                v = fr.deref_operand(t['args'][0])
+                if isinstance(v, Lin) and v.t and set(v.t) <= {'x0_den', 'gx0_den'} and all(k_ > 0 for k_ in v.t.values()):
+                    # the helper's denominators are non-zero on both of its paths (decided by the helper rules:
+                    # A' xi resp. -A' (xi^2 t^4 + xi t^2) under the test that the latter is non-zero)
+                    fr.storev(t['dest'], exp.Int(0, 1))
+                    return True
             if r_ in chain_fns and len(t['args']) == 2:
                 v = fr.deref_operand(t['args'][1])
                 if isinstance(v, Lin):
@@ -192,6 +199,48 @@ def rules(fx, rep):
 
         ntables = 1 if g == 'G1' else 4
         res = merge_explicit_sign_fix(res)
+        # G1 returns the second candidate without testing it: an added assertion of  y1^2 gden == xi^3 t^6 gnum  after the
+        # failed first test states the theorem this rule establishes anyway (candidate shape => cand^2 gden/gnum = +-1, so
+        # failure of the first test gives -1 and y1^2 gden = (-xi^3) t^6 cand^2 gden = xi^3 t^6 gnum).  Such labels are
+        # set aside (and checked to speak about the y that is returned); the path on which the assertion fails is infeasible.
+        asserted_y = []
+        if g == 'G1':
+            want_r2 = Lin({'gx0_num': 1, 'xi': 3, 't': 6})
+
+            def theorem_y(lab):
+                if not (isinstance(lab, tuple) and lab and lab[0] in ('eq', 'ne') and isinstance(lab[1], Lin) and isinstance(lab[2], Lin)):
+                    return None
+                lhs_, rhs_ = subst(lab[1], rel), subst(lab[2], rel)
+                for a_, b_ in ((lhs_, rhs_), (rhs_, lhs_)):
+                    if b_ == want_r2:
+                        yy = a_.add(Lin({'x0_den': -3}))
+                        if yy.t and all(v_ % 2 == 0 for v_ in yy.t.values()):
+                            return Lin({k_: v_ // 2 for k_, v_ in yy.t.items()})
+                return None
+            res2 = []
+            for p_, r_, o_ in res:
+                keep, drop_path, seen_fail = [], False, False
+                for l in p_.labels:
+                    ty_ = theorem_y(l[0])
+                    is_eq_lab = isinstance(l[0], tuple) and l[0] and l[0][0] in ('eq', 'ne')
+                    if ty_ is not None and seen_fail:
+                        asserted_y.append(ty_)
+                        holds = (l[1] != 0) == (l[0][0] == 'eq')
+                        if not holds:
+                            drop_path = True
+                        continue
+                    if is_eq_lab and ((l[1] != 0) != (l[0][0] == 'eq')):
+                        seen_fail = True
+                    keep.append(l)
+                if drop_path and isinstance(r_, tuple) and r_ and r_[0] == 'diverges':
+                    continue
+                if len(keep) != len(p_.labels):
+                    np_ = exp.Path()
+                    np_.labels = keep
+                    np_.events = list(p_.events)
+                    p_ = np_
+                res2.append((p_, r_, o_))
+            res = res2
         returns = [(p_, r_) for p_, r_, _ in res if isinstance(r_, exp.Agg)]
         diverges = [(p_, r_) for p_, r_, _ in res if isinstance(r_, tuple) and r_ and r_[0] == 'diverges']
         rep.check(len(returns) == (2 if g == 'G1' else 8), 'GUARD', '%s:returning-paths' % g,
@@ -264,6 +313,9 @@ def rules(fx, rep):
                 mult = Lin({a: k for a, k in y0.t.items() if a.startswith('const:')})
                 second_mults.append((len(false_eqs), mult))
                 cand = y0.add(mult.neg()).add(Lin({'t': -3}))
+                for ay in asserted_y:
+                    rep.check(ay == y0, 'GUARD', 'G1:asserted-relation', 'the asserted relation y^2 gden == xi^3 t^6 gnum speaks about the y that is returned',
+                              'an assertion after the failed first test constrains %r, but %r is returned' % (ay, y0), where, construct=path)
                 if g == 'G1':
                     # single test: x1 is returned when  cand^2 * gden == gnum  FAILS; then (shape) cand^2 gden = -gnum
                     want_l = cand.scale(2).add(Lin({'x0_den': 3}))
